@@ -708,6 +708,8 @@ def wide():
     # and 65 cells, which exhaust its memory.)
     for e, nm in ROW_ENTRIES.items():
         add("C16", f"c16_{nm}_owned_long_2x17_l16", f"c16::sort_long({e}, 0, 2, 17, 0, 0, 2, 17, 16)", 20, T, stubs=[SORT_STUB])
+    # (65 cells per line: CBMC aborts with status 6)
+    add("C17", "c17_sort_by_col_owned_long_33x2_l32", "c16::sort_long(6, 0, 33, 2, 0, 0, 33, 2, 32)", 36, T, stubs=[SORT_STUB])
     for e, nm in COL_ENTRIES.items():
         add("C17", f"c17_{nm}_owned_long_17x2_l16", f"c16::sort_long({e}, 0, 17, 2, 0, 0, 17, 2, 16)", 20, T, stubs=[SORT_STUB])
     # 72-byte elements
